@@ -1,6 +1,7 @@
 import LiquidVerif.Lemmas.AnalysisSim
 import LiquidVerif.Lemmas.AnalysisFirst
 import LiquidVerif.Lemmas.AnalysisKeyed
+import LiquidVerif.Lemmas.AnalysisSpans
 import LiquidVerif.Gen.NodeExprCoverage
 /-!
 # C19 — static analysis reports everything a render can touch
@@ -162,6 +163,26 @@ theorem sound_of_hyp2 (ns : Nodes) (tmpl : Name) (B : Name → Nodes) (hc : Cons
     exact keyed_globals B ns tmpl hc h2 _ he l rfl
   | filt f => exact h1
   | tag t => exact h1
+
+/-! ## Locations (ties in with C20) -/
+
+/-- **No phantom locations**: for every tree and either mode of `_visit`, every location the analysis reports
+in `variables` or in `globals` is the (root, template, token index) of a `Path` that occurs in the expanded
+tree — a reported `Span` is always the position of a reference a render can evaluate, never an invented one.
+(Together with `analysis_reports_all`: the reported locations are exactly the tree's references.) -/
+theorem reported_locations_are_references (ns : Nodes) (tmpl : Name) :
+    (∀ l ∈ (analyze ns tmpl).vars, Ev.get l false ∈ allEvNodes ns tmpl) ∧
+    (∀ l ∈ (analyze ns tmpl).globs, Ev.get l false ∈ allEvNodes ns tmpl) := by
+  have h := visitNodes_locs ns tmpl false St.init
+  constructor
+  · intro l hl
+    rcases h.1 l hl with h1 | h1
+    · simp [St.init] at h1
+    · exact h1
+  · intro l hl
+    rcases h.2 l hl with h1 | h1
+    · simp [St.init] at h1
+    · exact h1
 
 /-! ## Stages (DESIGN §10): no partials, then `include`, then `render` -/
 
